@@ -323,6 +323,25 @@ func checkDateTimeCore(c dCase) (site, msg string) {
 		if got := api.DateTimeText(st.Event.Timestamp); got != text {
 			return "uhppote.GetStatus/event-timestamp", fmt.Sprintf("status event timestamp %s came back as %s", text, got)
 		}
+		// the same status with the event stamped a century earlier / later (an event from 1926 in the store, a controller whose event
+		// clock ran ahead): the SYSTEM date and time are combined from their own fields, the same way
+		for _, delta := range []int{-100, 100} {
+			y2 := c.Y + delta
+			if !spec.ValidDate(y2, c.M, c.D) || !zones.CivilExists(time.Local, y2, c.M, c.D, c.H, c.Mi, c.S) {
+				continue
+			}
+			s2 := append([]byte(nil), s...)
+			toff2 := ls.Field("event.timestamp").Off
+			s2[toff2], s2[toff2+1] = bcd(y2/100), bcd(y2%100)
+			drv.Reset(s2)
+			st2, err := u.GetStatus(405419896)
+			if err != nil || st2 == nil {
+				return "uhppote.GetStatus/error", fmt.Sprintf("status with system date+time %s and an event stamped in %04d: %v", text, y2, err)
+			}
+			if got := api.DateTimeText(st2.SystemDateTime); got != text {
+				return "uhppote.GetStatus/system-datetime/event-in-another-century", fmt.Sprintf("status system date+time %s came back as %s (the event in the same record is stamped %04d-%02d-%02d %02d:%02d:%02d)", text, got, y2, c.M, c.D, c.H, c.Mi, c.S)
+			}
+		}
 		// the listener combines system date and time the same way
 		rec := &recorder{ch: make(chan struct{}, 64)}
 		q := make(chan os.Signal)
